@@ -55,6 +55,7 @@ DEFAULT_KNOBS = Knobs(
     p_stale_doc_default=0.0,  # prose that states a default states ANOTHER value than the description's own default (stale words)
     p_return_none_default=0.0,  # the returned default expression is None (Optional[...] return)
     p_boundary_doc=0.1,  # prose of an exact length around the wrap width, so that the break falls inside / next to the default sentence
+    p_literal_with_spaces=0.0,  # Literal[...] whose second choice is a long phrase with blanks (a :type: line that folds inside a quoted value)
     p_multi_line_summary=0.3,
     p_indented_summary_line=0.0,  # continuation lines of a multi-line summary start with blanks (an indented note / bullet list)
     p_long_summary=0.15,
@@ -257,6 +258,8 @@ class IRGen:
         elif tc == "literal":
             if r.random() < 0.7:
                 typ, tc = "Literal['{0}_a', '{0}_b']".format(name), "literal_str"
+                if k.p_literal_with_spaces and self.chance(k.p_literal_with_spaces):
+                    typ = "Literal['{0}_a', '{0} zq alpha beta gamma delta epsilon zeta eta theta iota kappa lambda mu nu xi omicron pi rho sigma tau']".format(name)
             else:
                 n = self._u()
                 typ, tc = "Literal[{}, {}]".format(n, n + 100), "literal_int"
